@@ -58,7 +58,7 @@ func withTTL(cfg map[string]any, key string, t ttlOpt) map[string]any {
 	return out
 }
 
-var jwtfTTLs = []ttlOpt{{"unset", false, 5 * time.Minute}, {"3s", true, 3 * time.Second}, {"7s", true, 7 * time.Second}, {"30s", true, 30 * time.Second}, {"1h", true, time.Hour}}
+var jwtfTTLs = []ttlOpt{{"unset", false, 5 * time.Minute}, {"3s", true, 3 * time.Second}, {"5s", true, 5 * time.Second}, {"6s", true, 6 * time.Second}, {"7s", true, 7 * time.Second}, {"30s", true, 30 * time.Second}, {"1h", true, time.Hour}}
 
 var ccDeltas []*int
 
